@@ -30,6 +30,19 @@ def load_props():
     return mod
 
 
+ENCODING_ASSUMPTIONS = [
+    'A1 float arithmetic is real arithmetic (no rounding) except that overflow to +-inf, NaN propagation, unordered NaN comparison and '
+    'int -> float rounding of additive conversions are modelled',
+    'A2 generalConfig.lazy_number_validation is False (its default)',
+    'A3 logging (self.log.*, log.*, print) never raises and has no effect; its arguments are not evaluated',
+    'A4 dictionaries have string keys unless declared dict[obj] / dict[int] / dict[pair] / set[obj] in the class schema of the contract file',
+    'A5 codec axioms: canonical base64 text, enum name/code bijection (validated by the bounded tier)',
+    'A6 no BaseException other than Exception subclasses (no KeyboardInterrupt / MemoryError / SystemExit)',
+    'A7 termination is not proved anywhere; a hang violates no clause',
+    'hashability is approximated by "not a list / dict / set"; containers have value semantics with alias tracking for values taken out of '
+    'a dict slot (get / setdefault / items())',
+    'contracts marked trusted (coverage.trusted_contracts) are assumed: abstract callables, interface contracts of abstract members, external functions',
+]
 JOB_TIMEOUT_S = {'quick': 420, 'thorough': 3000}
 _WORLDS = {}
 
@@ -433,6 +446,7 @@ def report(a, P, props, results, bounded, known, seed, t0, world):
         'samples': samples or [{'note': 'no obligation generated'}],
         'bounded': bounded_cov,
         'bounded_only_functions': P.get('bounded_only', []),
+        'trusted_contracts': sorted(k for k, c_ in world.contracts.items() if c_.get('trusted')),
         'undecided': undecided[:40], 'crashes': crashes[:10],
         'uncovered_clauses': P.get('uncovered', []),
         'known_findings_open': [k['what'] for k in open_known],
@@ -454,7 +468,7 @@ def report(a, P, props, results, bounded, known, seed, t0, world):
         cov['explanation'] = ('bounded stand-in only (contracts evaluated by CPython on the real functions over enumerated inputs); '
                               'no deductive obligation is claimed for this property - see DESIGN.md 4')
     ev = {'property_id': prop, 'tier': a.tier if a.tier in ('quick', 'thorough') else 'quick', 'seed': seed, 'level': level,
-          'coverage': cov, 'assumptions': list(world.assumptions) + P.get('assumptions', []),
+          'coverage': cov, 'assumptions': ENCODING_ASSUMPTIONS + [x for x in world.assumptions if not x.startswith('A3/A6/A7')] + P.get('assumptions', []),
           'wall_s': round(time.time() - t0, 2), 'violations': len(vio_lines)}
     if not a.only and REPO == '/repo':
         with open(os.path.join(VERIF, 'evidence', f'{prop}.json'), 'w') as f:
